@@ -435,5 +435,148 @@ Arguments VScalar {S O F}. Arguments VRow {S O F}. Arguments V1 {S O F}. Argumen
 Arguments Sc {F}. Arguments A1 {F}. Arguments A2 {F}.
 Arguments PlanGrid {F}. Arguments PlanMaterialised {F}. Arguments PlanNone {F}.
 
+(* ------------------------------------------------------------------------------------------------ *)
+(* 5. the optional keywords of a call (out=, where=, dtype=, casting= ...)                           *)
+(* ------------------------------------------------------------------------------------------------ *)
+(* numpy's elementwise evaluation with out= and where=: a position of the output buffer receives the computed value where
+   the mask is True and KEEPS what it held where the mask is False *)
+Fixpoint np_where_out {F} (res : list F) (mask : list bool) (out : list F) : list F :=
+  match res, mask, out with
+  | r :: res', m :: mask', o :: out' => (if m then r else o) :: np_where_out res' mask' out'
+  | _, _, _ => []
+  end.
+
+Section Keywords.
+  (* K: the keyword arguments of the call, whatever they are *)
+  Variables V A X K R : Type.
+  Variable mat : V -> A.
+  (* __array_ufunc__(self, ufunc, method, *inputs, **kwargs) / __array_function__(self, func, types, args, kwargs):
+     the positional arguments are converted, the keywords reach the numpy callable as the caller gave them *)
+  Definition array_ufunc_kw (f : list (arg V A X) -> K -> R) (inputs : list (arg V A X)) (kw : K) : option R :=
+    if av_ufunc_converts_then_applies && av_convert_recurses_lists_tuples && av_ufunc_passes_keywords
+    then Some (f (map (conv V A X mat) inputs) kw) else None.
+  Definition array_function_kw (f : list (arg V A X) -> K -> R) (args : list (arg V A X)) (kw : K) : option R :=
+    if av_function_converts_then_applies && av_convert_recurses_lists_tuples && av_function_passes_keywords
+    then Some (f (map (conv V A X mat) args) kw) else None.
+End Keywords.
+
+(* np.<ufunc>(view, out=buffer, where=mask) on a sub-field view (composed bytes bs, mask m), g the elementwise function:
+   the call numpy evaluates, keywords = (mask, buffer) *)
+Definition sfv_ufunc_where {F} (g : Z -> F) (m : Z) (bs : list Z) (mask : list bool) (out : list F) : option (list F) :=
+  match array_ufunc_kw (list Z) (list Z) unit (list bool * list F) (option (list F)) (sf_materialise m)
+          (fun args kw => match args with
+                          | [AArr a] => Some (np_where_out (map g a) (fst kw) (snd kw))
+                          | _ => None                 (* a view left among the inputs: numpy dispatches again *)
+                          end)
+          [AView true bs] (mask, out) with
+  | Some r => r
+  | None => None
+  end.
+
+(* ------------------------------------------------------------------------------------------------ *)
+(* 6. several views in one call                                                                      *)
+(* ------------------------------------------------------------------------------------------------ *)
+(* np.concatenate([a.x, b.x, c.return_number]), np.where(m, a.x, b.x), np.hypot(a.x, b.y) ...: numpy hands the call to the
+   class of one of the views among the arguments; that class's __array_function__ / __array_ufunc__ converts the views of
+   ITS class (isinstance(arg, self.__class__)) and calls the numpy callable again, which dispatches again as long as a view
+   is left.  Every view is materialised by ITSELF: with its own mask, its own scale and offset. *)
+Definition same_class (c d : vclass) : bool :=
+  match c, d with CArrayView, CArrayView | CSubField, CSubField | CScaled, CScaled => true | _, _ => false end.
+
+Section Dispatch.
+  Variables V A X R : Type.
+  Variable cls : V -> vclass.
+  Variable mat : V -> A.
+  Inductive marg := MView (v : V) | MArr (a : A) | MOther (x : X) | MSeq (l : list marg).
+
+  Fixpoint conv_class (c : vclass) (a : marg) : marg :=
+    match a with
+    | MView v => if same_class (cls v) c then MArr (mat v) else a
+    | MSeq l => MSeq (map (conv_class c) l)
+    | _ => a
+    end.
+  (* the same expression with every view replaced by np.array(view) *)
+  Fixpoint mat_all (a : marg) : marg :=
+    match a with
+    | MView v => MArr (mat v)
+    | MSeq l => MSeq (map mat_all l)
+    | _ => a
+    end.
+  Fixpoint views (a : marg) : list V :=
+    match a with
+    | MView v => [v]
+    | MSeq l => flat_map views l
+    | _ => []
+    end.
+  Definition views_of (args : list marg) : list V := flat_map views args.
+
+  Fixpoint dispatch (fuel : nat) (f : list marg -> R) (args : list marg) : option R :=
+    match views_of args with
+    | [] => Some (f args)
+    | v :: _ =>
+        match fuel with
+        | O => None
+        | S k => if av_function_converts_then_applies && av_ufunc_converts_then_applies && av_convert_recurses_lists_tuples
+                 then dispatch k f (map (conv_class (cls v)) args) else None
+        end
+    end.
+End Dispatch.
+Arguments MView {V A X}. Arguments MArr {V A X}. Arguments MOther {V A X}. Arguments MSeq {V A X}.
+
+Section Concatenate.
+  Variables S O F : Type.
+  Variable ap : S -> O -> Z -> F.
+  (* np.concatenate of plain arrays along the first axis: 1-D pieces, or 2-D pieces of the same number of columns *)
+  Fixpoint np_concat_rows (k : nat) (l : list (nd F)) : option (list (list F)) :=
+    match l with
+    | [] => Some []
+    | A2 k' m :: r => if Nat.eqb k k' then option_map (app m) (np_concat_rows k r) else None
+    | _ => None
+    end.
+  Fixpoint np_concat_flat (l : list (nd F)) : option (list F) :=
+    match l with
+    | [] => Some []
+    | A1 x :: r => option_map (app x) (np_concat_flat r)
+    | _ => None
+    end.
+  Definition np_concatenate (l : list (nd F)) : option (nd F) :=
+    match l with
+    | [] => None                                          (* need at least one array to concatenate *)
+    | A1 _ :: _ => option_map A1 (np_concat_flat l)
+    | A2 k _ :: _ => option_map (A2 k) (np_concat_rows k l)
+    | Sc _ :: _ => None                                   (* zero-dimensional arrays cannot be concatenated *)
+    end.
+
+  Fixpoint arrays_of (l : list (marg (sview S O F) (nd F) unit)) : option (list (nd F)) :=
+    match l with
+    | [] => Some []
+    | MArr a :: r => option_map (cons a) (arrays_of r)
+    | _ => None
+    end.
+  (* np.concatenate([v1, v2, ...]) on scaled views of any records *)
+  Definition concatenate_views (pieces : list (sview S O F)) : option (nd F) :=
+    match dispatch (sview S O F) (nd F) unit (option (nd F)) (fun _ => CScaled) (materialise S O F ap) (Datatypes.S (length pieces))
+            (fun args => match args with
+                         | [MSeq l] => match arrays_of l with Some arrs => np_concatenate arrs | None => None end
+                         | _ => None
+                         end)
+            [MSeq (map MView pieces)] with
+    | Some r => r
+    | None => None
+    end.
+
+  (* the values of a one-element-per-point piece, each scaled with the piece's own scale and offset *)
+  Definition piece_values (v : sview S O F) : list F := match v with V1 xs s o => map (ap s o) xs | _ => [] end.
+  Definition is_v1 (v : sview S O F) : bool := match v with V1 _ _ _ => true | _ => false end.
+
+  (* the shortcut a 'same scaling' fast path would take: the stored integers joined, scaled once with the FIRST piece's scaling *)
+  Definition grid_of (v : sview S O F) : list Z := match v with V1 xs _ _ => xs | _ => [] end.
+  Definition concat_grid_first (pieces : list (sview S O F)) : option (nd F) :=
+    match pieces with
+    | V1 _ s o :: _ => Some (A1 (map (ap s o) (flat_map grid_of pieces)))
+    | _ => None
+    end.
+End Concatenate.
+
 (* a concrete instance for the examples: integer scales > 0, exact arithmetic *)
 Definition ap_Z (s : positive) (o : Z) (x : Z) : Z := x * Z.pos s + o.
